@@ -1142,6 +1142,10 @@ func (s *Store[K, V]) Recover(version uint64, reader io.Reader) error {
 			}
 			metaSeen = true
 			s.timerwheel.clock.SetStart(m.StartNano)
+			// the cached "now" was taken against the old origin: refresh it, or until
+			// the next tick reads trust a clock that is behind by the whole uptime of
+			// the saved cache and serve restored entries past their deadline
+			s.timerwheel.clock.RefreshNowCache()
 			s.policy.sketch.EnsureCapacity(uint(m.Total))
 			if m.Capacity == s.policy.capacity && m.WindowCap >= 1 && m.WindowCap < m.Capacity {
 				// same size: the regions were filled under the adaptive split saved
